@@ -134,6 +134,8 @@ def parse(template_text):
                             ex.anchor = v.strip('`')
                         elif k == 'params':
                             ex.params = v.strip('`')
+                        elif k == 'cut_after':
+                            ex.cut_after = v.strip('`')
                         elif k == 'no_release_variant':
                             ex.no_release_variant = True
                         elif k == 'external_body':
@@ -289,6 +291,9 @@ def expand_extract(ex, canary=False):
     text, n = rules.r7_loop_value(text)
     if n:
         fired.append('R7b loop-value x%d' % n)
+    text, n = rules.r7_let_else_continue(text)
+    if n:
+        fired.append('R7e let-else-continue -> if-let x%d' % n)
     text, n = rules.r7_eta_constructor(text)
     if n:
         fired.append('R7d eta-expanded constructor x%d' % n)
@@ -296,6 +301,28 @@ def expand_extract(ex, canary=False):
     if n:
         fired.append('R7c closure tuple parameter x%d' % n)
     text = _apply_rules(ex, text, fired)
+    if ex.cut_after:
+        # R1c prefix: keep the statements up to and including the one containing the anchor; the remainder of the body
+        # is explicitly not under contract and is represented by a call that returns an arbitrary value.
+        mt = mask(text)
+        hits = [i for i in range(len(mt)) if mt.startswith(ex.cut_after, i)]
+        if len(hits) != 1:
+            raise AnchorLost('%s: cut_after anchor %r matched %d times' % (ex.id, ex.cut_after, len(hits)))
+        k, depth = hits[0], 0
+        while k < len(mt):
+            ch = mt[k]
+            if ch in '([{':
+                depth += 1
+            elif ch in ')]}':
+                depth -= 1
+            elif ch == ';' and depth <= 0:
+                break
+            k += 1
+        prefix = text[:k + 1]
+        pm = mask(prefix)
+        open_braces = pm.count('{') - pm.count('}')
+        text = prefix + '\n' + '}' * (open_braces - 1) + '\n    vx_rest_of_body_not_under_contract()\n}'
+        fired.append('R1c prefix: body cut after `%s`' % ex.cut_after)
     # loop annotations
     lps = rsrc.loops(text)
     for ordinal in sorted(ex.loops, reverse=True):
